@@ -66,6 +66,11 @@ def run(res, tier, br, model_ok=True, search=False):
     for nm, tx in families.extra_conforming():
         q = _P(); q.name, q.text, q.kind, q.productions, q.functions, q.items = nm, tx, "c", {}, [1, 2], [1, 2, 3, 4]
         progs.append(q)
+    # a conforming source file is conforming whatever it is called (dots, a leading underscore, capitals, a hyphen)
+    for p0 in [p for p in progs if p.name.endswith(".c")][: (60 if big else 8)] + progs[-3:]:
+        for alt in (families.name_variants(p0.name) if big else rng.sample(families.name_variants(p0.name), 2)):
+            q = _P(); q.name, q.text, q.kind, q.productions, q.functions, q.items = alt, p0.text, "c", {}, [1, 2], [1, 2, 3, 4]
+            progs.append(q)
     # every binary operator between every kind of operand, correctly spaced: nothing is reported on that line
     from props.C02 import BIN, LEFT, RIGHT
     combos = [(op, lk, rk) for op in BIN for lk in LEFT for rk in RIGHT]
